@@ -192,14 +192,16 @@ class ReplayChooser(Chooser):
         self._i = 0
 
     def draw(self, strategy, label="v"):
+        # A recorded failing case ends where it failed.  On a tree where it
+        # no longer fails the law runs on and asks for draws that were never
+        # made (or, after a different branch, for other draws): the recorded
+        # case is over - it held as far as it was recorded.
         if self._i >= len(self._src):
-            raise HarnessError(
-                f"replay exhausted at draw {self._i} (label {label!r})"
-            )
+            raise Skip(f"replay exhausted at draw {self._i} ({label!r})")
         lab, val = self._src[self._i]
         if lab != label:
-            raise HarnessError(
-                f"replay desync at draw {self._i}: recorded {lab!r}, "
+            raise Skip(
+                f"replay diverged at draw {self._i}: recorded {lab!r}, "
                 f"law asks {label!r}"
             )
         self._i += 1
